@@ -346,3 +346,28 @@ theorem api_stream_once (ac : ApiCfg) (hpol : StrongPolicy ac.cfg) (N M : Nat) (
   · exact C15.insert_mid_stream_once ac.cfg x p s.nextStream vs w0 w' r hr
 
 end SvModel.Bridge
+
+namespace SvModel.Bridge
+open SvModel Gen History SvModel.System
+
+/-- what the system invariant says, spelled out for every state the driver reaches (C02 / C03 / C04 / C07 storage side):
+    every constructed container satisfies the storage invariants; the live allocator blocks are exactly the buffers of the
+    non-inlined constructed containers, no block is owned twice; each heap buffer belongs to the allocator its container
+    holds NOW; unconstructed storage holds no object; no lifetime violation was logged -/
+theorem api_clauses (ac : ApiCfg) (hpol : StrongPolicy ac.cfg) (N M : Nat) (hN : N ≤ ac.cfg.maxSize) (hM : M ≤ ac.cfg.maxSize)
+    (h : List (Op × List Nat)) (hc : Covered ac [0, 1, 2, 3] (initSys N M) [] h) :
+    let s := apiRun ac (initSys N M) h
+    (∀ c, s.isAlive c = true → VecOK ac.cfg s.w c) ∧
+    (∀ b ∈ s.w.live, ∃ c, s.isAlive c = true ∧ (s.w.hdr c).data = b ∧ (s.w.hdr c).data ≠ (s.w.hdr c).inl) ∧
+    (∀ c, s.isAlive c = true → (s.w.hdr c).data ≠ (s.w.hdr c).inl → (s.w.hdr c).data ∈ s.w.live ∧ s.w.owner (s.w.hdr c).data = (s.w.hdr c).alloc) ∧
+    (∀ c d, s.isAlive c = true → s.isAlive d = true → c ≠ d → (s.w.hdr c).data ≠ (s.w.hdr c).inl → (s.w.hdr c).data ≠ (s.w.hdr d).data) ∧
+    s.w.ub = [] := by
+  intro s
+  obtain ⟨A', hA', hs'⟩ := api_reachable_from_init ac hpol N M hN hM h hc
+  obtain ⟨c1, c2, c3, c4, _, c6⟩ := sys_clauses hs'
+  refine ⟨fun c hc' => c1 c ((hA' c).mpr hc'), fun b hb => ?_, fun c hc' hne => ⟨c3 c ((hA' c).mpr hc') hne, sys_alloc_clause hs' c ((hA' c).mpr hc') hne⟩,
+          fun c d hc' hd' hcd hne => c4 c ((hA' c).mpr hc') d ((hA' d).mpr hd') hcd hne, c6⟩
+  obtain ⟨c, hcA, h1, h2⟩ := c2 b hb
+  exact ⟨c, (hA' c).mp hcA, h1, h2⟩
+
+end SvModel.Bridge
